@@ -75,6 +75,9 @@ func (h *harness) buildCases() []*kase {
 		return []*cqlT{
 			tList(e), tSet(e), tMap(h.sc("int"), e), tMap(h.sc("varchar"), e),
 			tTuple(h.fieldsOf(e, w, true)...), tUdt(h.fieldsOf(e, w, true)...),
+			// a key type without a comparable preferred Go type: such a map has no untyped destination of its
+			// own, but a NULL one is still a legitimate field / element of an enclosing tuple, udt or list
+			tMap(h.sc("blob"), e),
 		}
 	}
 	outers := func(x *cqlT, w int) []*cqlT {
@@ -111,7 +114,7 @@ func (h *harness) buildCases() []*kase {
 			r := mon.NewRand(c.Seed, uint64(1_000_000+i))
 			e := tScalar(h.scalars[r.Intn(len(h.scalars))])
 			w3, w2, w1 := 1+r.Intn(2), 1+r.Intn(2), 1+r.Intn(3)
-			l3 := inners(e, w3)[r.Intn(6)]
+			l3 := inners(e, w3)[r.Intn(7)]
 			l2 := outers(l3, w2)[r.Intn(6)]
 			l1 := outers(l2, w1)[r.Intn(6)]
 			add(l1, w1, w2, w3)
@@ -617,7 +620,7 @@ func (h *harness) runCase(k *kase, index int) {
 			for _, b := range encodings {
 				// untyped destination: the library picks every slot type (PreferredGoType); the null must
 				// still be a nil there and must be a -1 length again when the untyped result is re-encoded
-				if untypedOK {
+				if untypedOK && untypedFeasible(t, p.v) {
 					d := reflect.New(tIface)
 					wasNull, err, pan := h.dec(codec, b, d.Interface(), ver)
 					lc.evals++
@@ -776,10 +779,28 @@ func (h *harness) runCase(k *kase, index int) {
 						judge(dstLabels[i], s.dest(dstT[i]), prefilled, s.top == "iface")
 					}
 				}
-				if untypedOK {
+				if untypedOK && untypedFeasible(t, want) {
 					judge("untyped", reflect.New(tIface), false, true)
 				}
 			}
 		}
 	}
+}
+
+// untypedFeasible: can this value be decoded into an untyped destination at all? A map whose key type has no
+// comparable preferred Go type (blob keys) has no untyped form, so every such map in the value must be NULL —
+// a NULL needs no Go type, and must stay a nil in the enclosing tuple / udt / collection.
+func untypedFeasible(t *cqlT, v *val) bool {
+	if v == nil || v.null {
+		return true
+	}
+	if t.kind == "map" && t.kids[0].kind == "scalar" && t.kids[0].sc.fam == famBytes {
+		return false
+	}
+	for i := range v.kids {
+		if !untypedFeasible(t.valueKid(i), v.kids[i]) {
+			return false
+		}
+	}
+	return true
 }
